@@ -268,7 +268,27 @@ def partial_reject_rule(chk, fn, tail_attr: str, rule="C03.partial"):
                 for anc in list(_ancestors(r, st_)) + [st_]:
                     if isinstance(anc, (ast.If, ast.While)):
                         tests.append(anc.test)
+                # a test *looks at* the bytes when it asks for their content or their length against a limit; asking only whether there are
+                # any (`if chunk and <state>`) does not (round 7, seed C03-7)
+                def looks(t):
+                    for x in ast.walk(t):
+                        nm = x.id if isinstance(x, ast.Name) else norm.raw(x) if isinstance(x, ast.Attribute) else None
+                        if nm is None or nm not in (local | {f"self.{tail_attr}"}):
+                            continue
+                        par = getattr(x, "parent", None)
+                        if isinstance(par, (ast.BoolOp, ast.If, ast.While)) or (isinstance(par, ast.UnaryOp) and isinstance(par.op, ast.Not)) or par is None or x is t:
+                            continue  # bare truthiness
+                        return True
+                    return False
                 seen = {n.id for t in tests for n in ast.walk(t) if isinstance(n, ast.Name)} | {norm.raw(n) for t in tests for n in ast.walk(t) if isinstance(n, ast.Attribute)}
+                content = set()
+                for t in tests:
+                    for cj in (t.values if isinstance(t, ast.BoolOp) and isinstance(t.op, ast.And) else [t]):
+                        if looks(cj):
+                            content |= {n.id for n in ast.walk(cj) if isinstance(n, ast.Name)} & local
+                seen = (seen - local) | content
+                # the state part of a mixed test is what remains to be justified when the byte part is only `is there anything`
+                tests = [cj for t in tests for cj in (t.values if isinstance(t, ast.BoolOp) and isinstance(t.op, ast.And) else [t]) if not (isinstance(cj, ast.Name) and cj.id in local)] if not content else tests
                 if seen & (local | {f"self.{tail_attr}"}):
                     chk.ok(rule, r, f"the incomplete line is refused because of its own bytes ({', '.join(sorted(seen & local))}): true for every continuation")
                     continue
@@ -305,7 +325,14 @@ def partial_reject_rule(chk, fn, tail_attr: str, rule="C03.partial"):
                 else:
                     names = {norm.raw(n) for t in tests for n in ast.walk(t) if isinstance(n, ast.Attribute)}
                     related = [x for x in others if any(nm in norm.raw(i.test) for i in _ancestors(x, K._root(fn)) if isinstance(i, ast.If) for nm in names)]
-                    if related:
+                    # the complete-line path spares the empty line (`if line and <state>`): bytes that can still become one (a lone CR, the
+                    # first half of the CRLF that ends the section) must be spared by the early refusal as well
+                    spares_empty = [x for x in related if any(l.pos and l.text.isidentifier() and l.text in ("line", "bline", "hline") for l in PC.units(PC.pc(x, raw=True)))]
+                    excludes_cr = any(any(k in norm.raw(t) for k in (".strip(", ".rstrip(", "!= b'\\r'", "!= SEP", "not in (b'\\r'", ".startswith(")) for t in tests)
+                    if spares_empty and not excludes_cr:
+                        chk.violation(rule, r, K.short(r), "spare the bytes that may still become the empty line: `if chunk.strip(b'\\r') and <state>`",
+                                      f"{fn.qualname} refuses an incomplete line on parser state ({' and '.join(norm.raw(t) for t in tests)}), while the complete-line path (line {spares_empty[0].lineno}) applies the same limit only to a non-empty line: the CR of the CRLF that ends the section is an incomplete line too - a message whose fields use the budget exactly is accepted in one read and refused with `Too many ...` when the read ends between that CR and LF")
+                    elif related:
                         chk.ok(rule, r, f"refusal of an incomplete line on parser state ({' and '.join(norm.raw(t) for t in tests)}); the complete-line path tests related state in another form (line {related[0].lineno}): equivalence not decided")
                     else:
                         chk.violation(rule, r, K.short(r), f"a test of the retained bytes ({', '.join(sorted(local))}) in front of the raise",
